@@ -30,6 +30,9 @@ pub enum Op {
     Utc { t: u8 },
     /// ambient entry points (real /etc/localtime, default directories)
     Ambient { k: u8 },
+    /// a relative name resolved through settings that read the REAL file system under directories "/", "//" and a scratch directory
+    /// with a trailing slash: every candidate path is absolute, so the answer cannot depend on the process's working directory
+    RealFs { k: u8 },
 }
 
 #[derive(Debug, Clone, Serialize, Deserialize, Hash)]
@@ -133,6 +136,13 @@ fn footer_family_files() -> &'static Vec<Vec<u8>> {
                 v.push(crate::tzif::footer_file(version, footer));
             }
         }
+        // files with several defects of different kinds at once: which diagnostic is reported must be a function of the bytes alone
+        for rot in 0..4usize {
+            let mut ttinfos = vec![(0i32, 2u8, 0u8), (i32::MIN, 0, 0), (0, 0, 200), (0, 0, 4), (3600, 1, 0)];
+            ttinfos.rotate_left(rot);
+            let b = crate::tzif::Block { times: vec![], type_idx: vec![], ttinfos, chars: b"UTC\0a!b\0".to_vec(), leaps: vec![], isstd: vec![], isut: vec![] };
+            v.push(crate::tzif::write(&crate::tzif::FileModel { version: 2, v1: b.clone(), v2: Some(b), footer: b"UTC0".to_vec() }));
+        }
         v
     })
 }
@@ -212,6 +222,12 @@ fn exec(op: &Op, zones: &[TimeZone], times: &[i64]) -> u64 {
         Op::Project { z1, z2, t: ti } => h(DateTime::from_timespec(t(*ti), 7, z(*z1).as_ref()).and_then(|d| d.project(z(*z2).as_ref())).map(|d| (format!("{d:?}"), d.to_string()))),
         Op::Format { z: zi, t: ti } => h(DateTime::from_timespec(t(*ti), 123, z(*zi).as_ref()).map(|d| d.to_string())),
         Op::Utc { t: ti } => h(UtcDateTime::from_timespec(t(*ti), 5).map(|d| (d.to_string(), d.week_day(), d.year_day(), d.unix_time()))),
+        Op::RealFs { k } => {
+            static D: OnceLock<Vec<&'static str>> = OnceLock::new();
+            let dirs = D.get_or_init(|| vec!["/", "//", Box::leak(format!("{}/", vdir(0)).into_boxed_str())]);
+            let settings = TimeZoneSettings::new(dirs, TimeZoneSettings::DEFAULT_READ_FILE_FN);
+            h(settings.parse_posix_tz(["verif-c15-rel/Zone", ":verif-c15-rel/Zone", "verif-c15-rel/../verif-c15-rel/Zone"][*k as usize % 3]).map_err(|e| format!("{e:?}")))
+        }
         Op::Ambient { k } => match k % 3 {
             0 => h(TimeZone::local().map_err(|e| format!("{e:?}"))),
             1 => h(TimeZone::from_posix_tz("UTC0").map_err(|e| format!("{e:?}"))),
@@ -353,6 +369,10 @@ pub fn ambient_compare(progs: &[Program]) -> Result<u64, Failure> {
     std::fs::write(&path, serde_json::to_string(progs).unwrap()).map_err(|e| Failure::new("infra", format!("cannot write {path:?}: {e}"), json!(null)))?;
     remove_real_tree(); // the parent runs with the virtual directories absent from the real disk
     let exe = std::env::current_exe().map_err(|e| Failure::new("infra", e.to_string(), json!(null)))?;
+    // the child's working directory holds a readable zone file under the relative name the RealFs operations resolve
+    let cwd = crate::run::verif_dir().join(format!("build/c15cwd-{}", std::process::id()));
+    let _ = std::fs::create_dir_all(cwd.join("verif-c15-rel"));
+    let _ = std::fs::write(cwd.join("verif-c15-rel/Zone"), crate::tzif::footer_file(2, b"<+0111>-1:11"));
     let child = std::process::Command::new(exe)
         .arg("C15")
         .env("VERIF_C15_CHILD", &path)
@@ -361,9 +381,10 @@ pub fn ambient_compare(progs: &[Program]) -> Result<u64, Failure> {
         .env("TZDIR", "/nonexistent/zoneinfo")
         .env("LANG", "tr_TR.UTF-8")
         .env("LC_ALL", "tr_TR.UTF-8")
-        .current_dir("/tmp")
+        .current_dir(&cwd)
         .output();
     let _ = std::fs::remove_file(&path);
+    let _ = std::fs::remove_dir_all(&cwd);
     let child = match child {
         Ok(c) if c.status.success() => String::from_utf8_lossy(&c.stdout).to_string(),
         other => return Err(Failure::new("infra", format!("child process failed: {other:?}"), json!(null))),
@@ -385,7 +406,7 @@ pub fn ambient_compare(progs: &[Program]) -> Result<u64, Failure> {
             let i = a.iter().zip(&b).position(|(x, y)| x != y).unwrap_or(0);
             return Err(Failure::new(
                 "ambient",
-                format!("op #{i} {:?} returns something else in a process started with TZ='<+11>-11', TZDIR, LANG changed, cwd=/tmp and the virtual zoneinfo directories existing for real on disk (with other contents): the result depends on ambient process state", p.ops.get(i)),
+                format!("op #{i} {:?} returns something else in a process started with TZ='<+11>-11', TZDIR, LANG changed, another working directory (holding a file under the relative name) and the virtual zoneinfo directories existing for real on disk (with other contents): the result depends on ambient process state", p.ops.get(i)),
                 p.clone(),
             ));
         }
@@ -418,7 +439,7 @@ pub fn arb_program() -> SBoxedStrategy<Program> {
         2 => (any::<u8>(), any::<u8>(), any::<u8>()).prop_map(|(z1, z2, t)| Op::Project { z1, z2, t }),
         1 => (any::<u8>(), any::<u8>()).prop_map(|(z, t)| Op::Format { z, t }),
         1 => any::<u8>().prop_map(|t| Op::Utc { t }),
-        1 => any::<u8>().prop_map(|k| Op::Ambient { k }),
+        2 => any::<u8>().prop_map(|k| if k % 2 == 0 { Op::Ambient { k: k / 2 } } else { Op::RealFs { k: k / 2 } }),
     ];
     let generic = (
         proptest::collection::vec(prop_oneof![gens::arb_zone(ZoneCfg { max_trans: 8, leaps: true, wide_times: false }), gens::arb_aligned_zone()], 1..4),
@@ -455,7 +476,7 @@ pub fn arb_program() -> SBoxedStrategy<Program> {
 pub fn run(ctx: &Ctx) -> Outcome {
     let mut out = Outcome::new(
         "Generated programs: 4..40 operations (parse a real TZif file, resolve a TZ value through settings over four virtual file systems that give the same names different contents and directory orders, parse_local, lookup, search, buffer search, projection, formatting, UTC conversion, the ambient entry points TimeZone::local / from_posix_tz) over 1..3 generated zones + UTC shared by reference and a pool of <= 5 timestamps reused across zones; one program in eight searches a family of four zones sharing rule days/times but not offsets in one year's gap and fold hours, one in eight parses byte-identical footers inside version 2/3/4 files back to back. \
-         Each program runs sequentially (reference), reversed, permuted, on 2/4/8/16 threads (own permutation per thread, barrier start, interleaved yields), and - batched - in a child process with TZ, TZDIR, LANG and the working directory changed. Every operation's digest (hash of the Debug rendering of its complete result) must equal the sequential one. \
+         Each program runs sequentially (reference), reversed, permuted, on 2/4/8/16 threads (own permutation per thread, barrier start, interleaved yields), and - batched - in a child process with TZ, TZDIR, LANG and the working directory changed (the new working directory holds a zone file under the relative name that the RealFs operations resolve through absolute directories). Every operation's digest (hash of the Debug rendering of its complete result) must equal the sequential one. \
          Non-trivial: at least two query operations on shared zones; class: programs mixing parsing and queries. Compile-time half (checks/C15.sh): Send + Sync + 'static + Freeze for every public type (autotraits crate). Auxiliary, non-PBT audit (labelled as such): no writable static / TLS symbol of crate tz in the linked harness, no static mut / thread_local! / env:: token in the crate's non-test sources.",
     );
     out.assumptions = vec![
